@@ -252,7 +252,9 @@ def c09_zone(c, d, mode, raw):
     if c["kind"] == "prelude" and mode == "json" and "#" in c["texts"][1]:
         return "kf-c09-json-hash-types-unsupported"
     if c["kind"] in ("within", "and"):
-        return "kf-c09-and-within-not-conjunction"
+        S0 = Schema([("r0", "type", ("null",))])
+        if all(zones.contains_map(S0, T) for T in c["types"][:2]):
+            return "kf-c09-and-within-map-operands"
     return None
 
 
@@ -268,6 +270,8 @@ def subterm_paths(t, path=()):
         out += subterm_paths(t[1], path + (1,)) + subterm_paths(t[2], path + (2,))
     elif k == "tag":
         out += subterm_paths(t[2], path + (2,))
+    elif k == "ctl" and t[1] in ("and", "within"):
+        out += subterm_paths(t[2], path + (2,)) + subterm_paths(t[3], path + (3,))
     elif k in ("arr", "map"):
         out += [path + (1,) + p for p in group_type_paths(t[1])]
     return out
@@ -503,34 +507,26 @@ def has_map(v, minlen=2):
 
 
 def permute_members(rng, t):
-    """permute literal-keyed members of map groups (pairwise disjoint literal keys)"""
+    """shuffle the members of every map group whose members have pairwise disjoint key sets"""
     if not isinstance(t, tuple):
         return t
     if t and t[0] == "map":
         ms = ast.flatten_seq(t[1]) if t[1][0] != "empty" else []
-        lits, keys, ok = [], set(), True
-        for m in ms:
-            p = zones.member_parts(m)
-            if p is None or not zones.is_lit_key(p[2]):
-                continue
-            kk = repr(p[2])
-            if kk in keys:
-                ok = False
-            keys.add(kk)
-            lits.append(m)
-        if ok and len(lits) >= 2 and all(m[0] in ("ent", "occ") for m in ms):
-            idx = [i for i, m in enumerate(ms) if m in lits]
-            sh = lits[:]
-            rng.shuffle(sh)
-            ms2 = list(ms)
-            for i, m in zip(idx, sh):
-                ms2[i] = m
-            ms2 = [permute_members(rng, m) for m in ms2]
-            g = ms2[-1]
-            for it in reversed(ms2[:-1]):
-                g = ("seq", it, g)
-            return ("map", g)
+        parts = [zones.member_parts(m) for m in ms]
+        if len(ms) >= 2 and all(p is not None for p in parts):
+            kcs = [zones.key_class(p[2]) for p in parts]
+            disjoint = all(not zones.classes_overlap(kcs[i], kcs[j]) for i in range(len(kcs)) for j in range(i + 1, len(kcs)))
+            if disjoint:
+                ms2 = [permute_members(rng, m) for m in ms]
+                rng.shuffle(ms2)
+                g = ms2[-1]
+                for it in reversed(ms2[:-1]):
+                    g = ("seq", it, g)
+                return ("map", g)
     return tuple(permute_members(rng, x) for x in t)
+
+
+ORDER_ZONES = {"kf-c01-map-member-shape", "kf-c02-map-member-shape", "kf-c01-arrow-key-acts-as-cut"}
 
 
 def run_c10(prop, prop_file, tier, seed):
@@ -542,13 +538,14 @@ def run_c10(prop, prop_file, tier, seed):
     n = (1200 if tier == "quick" else 40000) * (2 if not proved else 1)
     items, meta = [], []
     for i in range(n):
-        o = gen.Opts(cbor=False, clean_maps=True, arrays=rng.random() < 0.4, depth=rng.choice([1, 2, 2]), ctl=False)
+        cb = rng.random() < 0.5
+        o = gen.Opts(cbor=cb, clean_maps=True, arrays=rng.random() < 0.4, depth=rng.choice([1, 2, 2]), ctl=False)
         S = gen.SchemaGen(rng, o).schema()
         root = S.rules[0][2]
         if root[0] != "map" and rng.random() < 0.7:
             S = Schema([("r0", "type", ("map", gen.SchemaGen(rng, o).mgroup(1)))] + S.rules[1:]) if False else S
-        for d in docs_for(rng, S, False, 3):
-            if not has_map(d):
+        for d in docs_for(rng, S, cb, 3):
+            if not has_map(d, 1):
                 continue
             d2 = permute_maps(rng, d)
             S2 = Schema([(nm, k, permute_members(rng, b)) for (nm, k, b) in S.rules])
@@ -561,8 +558,11 @@ def run_c10(prop, prop_file, tier, seed):
         key = rng.choice([("txt", "a"), ("int", 1), ("txt", "k1")])
         vt_ = rng.choice([("ref", "int"), ("ref", "tstr"), ("ref", "any")])
         members = ("ent", ("lit", key), True, vt_)
-        if rng.random() < 0.5:
+        r = rng.random()
+        if r < 0.4:
             members = ("seq", members, ("occ", 0, None, ("ent", ("ref", rng.choice(["tstr", "int", "any"])), False, ("ref", "any"))))
+        elif r < 0.7:
+            members = ("seq", members, ("ent", ("ref", rng.choice(["tstr", "int"])), False, rng.choice([("ref", "int"), ("ref", "tstr")])))
         S = Schema([("r0", "type", ("map", members))])
         vals = [rng.choice([("int", 1), ("int", 2), ("txt", "x")]) for _ in range(rng.choice([2, 2, 3]))]
         pairs = [(key, v) for v in vals]
@@ -571,6 +571,7 @@ def run_c10(prop, prop_file, tier, seed):
         rng.shuffle(pairs)
         dup_pairs.append((S, ("map", pairs)))
     dup_impl = runner.impl_cbor(drv, dup_pairs, rng)
+    dup_impl_rev = runner.impl_cbor(drv, [(S, ("map", list(reversed(d[1])))) for S, d in dup_pairs], rng)
     dup_model = runner.model(orc, dup_pairs, False)
     hist, known_hits, nviol, evals, distinct = {}, {}, 0, 0, set()
     kfs = {"json": {k["id"]: k for k in common.known_findings("C01")}, "cbor": {k["id"]: k for k in common.known_findings("C02")}}
@@ -584,7 +585,7 @@ def run_c10(prop, prop_file, tier, seed):
             distinct.add((S.cddl(), ast.val_sexp(d), ast.val_sexp(d2)))
             for what, x, other in (("document entries permuted", b, ast.val_sexp(d2)), ("disjoint-key schema members permuted", c, S2.cddl())):
                 if V(a) != V(x):
-                    zs = {z for z in zones.zones(S, d, mode) if z in kfs[mode]}
+                    zs = {z for z in (zones.zones(S, d, mode) | zones.zones(S2, d, mode)) if z in kfs[mode]} & ORDER_ZONES
                     if zs:
                         kid = sorted(zs)[0]
                         known_hits[kid] = known_hits.get(kid, 0) + 1
@@ -594,6 +595,20 @@ def run_c10(prop, prop_file, tier, seed):
                             res.violation("%s validator: verdict changes when %s: %s -> %s\n%sdocument %s\nvariant %s" % (mode, what, a[:80], x[:80], S.cddl(), ast.val_sexp(d), other),
                                           {"mode": mode, "what": what, "schema": S.cddl(), "schema2": S2.cddl(), "doc": ast.val_sexp(d), "doc2": ast.val_sexp(d2),
                                            "doc_cbor": ast.val_cbor(d).hex(), "doc2_cbor": ast.val_cbor(d2).hex(), "impl": [a, x]})
+    kf10 = {k["id"]: k for k in common.known_findings(prop)}
+    for (S, d), a, a2 in zip(dup_pairs, dup_impl, dup_impl_rev):
+        evals += 1
+        if V(a) != V(a2):
+            first = ast.flatten_seq(S.rules[0][2][1])[0]
+            lit_val_any = first[0] == "ent" and first[3] == ("ref", "any")
+            if not lit_val_any and "kf-c10-duplicate-keys-order-dependent" in kf10:
+                known_hits["kf-c10-duplicate-keys-order-dependent"] = known_hits.get("kf-c10-duplicate-keys-order-dependent", 0) + 1
+                continue
+            nviol += 1
+            if nviol <= 20:
+                res.violation("cbor validator: verdict of a map with duplicate keys changes when its entries are reversed: %s -> %s\n%sdocument %s" % (a[:80], a2[:80], S.cddl(), ast.val_sexp(d)),
+                              {"mode": "cbor", "what": "duplicate keys reversed", "schema": S.cddl(), "doc": ast.val_sexp(d), "doc_cbor": ast.val_cbor(d).hex(),
+                               "doc2_cbor": ast.val_cbor(("map", list(reversed(d[1])))).hex(), "impl": [a, a2]})
     for (S, d), a, m in zip(dup_pairs, dup_impl, dup_model):
         evals += 1
         hist["cbor-duplicate-keys"] = hist.get("cbor-duplicate-keys", 0) + 1
@@ -624,9 +639,9 @@ def run_c10(prop, prop_file, tier, seed):
         bad = 0
         for c in cases:
             if c["mode"] == "json":
-                o = runner.impl_json_text(drv, [(c["schema"], c["doc"]), (c["schema"], c["doc2"])])
+                o = runner.impl_json_text(drv, [(c["schema"], c["doc"]), (c.get("schema2", c["schema"]), c["doc2"])])
             else:
-                o = runner.impl_cbor_bytes(drv, [(c["schema"], bytes.fromhex(c["doc"])), (c["schema2"] if "schema2" in c else c["schema"], bytes.fromhex(c["doc2"]))])
+                o = runner.impl_cbor_bytes(drv, [(c["schema"], bytes.fromhex(c["doc"])), (c.get("schema2", c["schema"]), bytes.fromhex(c["doc2"]))])
             if V(o[0]) != V(o[1]):
                 bad += 1
         if bad:
